@@ -80,7 +80,14 @@ type server struct {
 	ep                      int
 	up                      bool
 	everUp                  bool
-	maxTerm                 uint64 // largest term ever reported through hooks / start
+	maxTerm                 uint64      // largest term ever reported through hooks / start
+	pendTerm                []pendTermW // setCurrentTerm calls whose durable write has not been seen yet (this incarnation)
+	pendTermEp              int
+	termRaced               bool // two setCurrentTerm calls of one incarnation overlapped (main loop and heartbeat fast path)
+	repEpoch                int  // externally reported terms (responses, CurrentTerm()): see reportedTerm
+	repMaxCur, repMaxPrev   uint64
+	repMaxCurWhat           string
+	repMaxPrevWhat          string
 	state                   int
 	stream                  *stream
 	commit                  uint64 // last commit index written in this epoch
@@ -197,10 +204,17 @@ type snapCheck struct {
 	local       bool
 }
 
+type pendTermW struct {
+	v     uint64
+	raced bool
+}
+
 type restoreCheck struct {
-	key     instKey
-	content string
-	seq     uint64
+	key         instKey
+	content     string
+	seq         uint64
+	index, term uint64 // of the snapshot the content was read from
+	known       bool
 }
 
 // Check runs every monitor over one execution's event log.
